@@ -392,7 +392,11 @@ class C17(BridgeProp):
 
     def mc_runs(self, ctx):
         return [{"module": "MC_Bridge", "cfg": ctx.pick("MC_Bridge.cfg", "MC_BridgeDeep.cfg"), "coverage": ctx.quick,
-                 "need_actions": ("StartPort", "StartDone", "Stop", "Cycle", "Occupy", "Free", "Receive") if ctx.quick else ()}]
+                 "need_actions": ("StartPort", "StartDone", "Stop", "Cycle", "Occupy", "Free", "Receive") if ctx.quick else ()},
+                # several bridge objects on one host, overlapping port lists, starts cancelled between two binds
+                {"module": "MC_Bridges", "cfg": ctx.pick("MC_Bridges.cfg", "MC_BridgesDeep.cfg"), "coverage": ctx.quick,
+                 "need_actions": ("StartPort", "StartDone", "StartCancelled", "Stop", "Cycle", "Occupy", "Free") if ctx.quick else ()},
+                {"module": "MC_Bridges", "cfg": "MC_BridgesShared.cfg", "expect_violation": "Isolation", "workers": 2}]
 
     def scenarios(self, ctx: Ctx):
         rng = ctx.rng
